@@ -425,3 +425,26 @@ Theorem service_names_differ_outside :
   /\ guards_of (svc_req [("service", AMap [("name", AStr "inner")])] [("service.name", AStr "outer")]) = [false].
 Proof. exact SpansSvcProofs.service_names_differ_outside. Qed.
 Print Assumptions service_names_differ_outside.
+
+(* ---- round 8: what the trace view shows is what the tag index holds (the first symptom of seeded change C06-h as a theorem).
+   For every accepted OTLP request and every span: each SCALAR first-level attribute (K, v) of the span the read path returns -- the last occurrence of K among
+   the span's attributes followed by the resource's, on both sides -- has the tag row (K, printed v) in the index, provided K is not "name" (indexed under the
+   span's name) and no OTHER attribute's dotted flattening (k.0, k.sub, ...) can reach K ([unreached]). *)
+Theorem read_attribute_is_indexed : forall b rows ps,
+  decode fixed (InOtlp b) = Some rows -> pushed_of (InOtlp b) = Some ps -> in_range (InOtlp b) ->
+  Forall2 (fun (p : pushed) sr => exists r, read_row fixed [] (fst sr) = Some r /\
+             forall K v str, K <> k_name -> lookup K (rs_attrs r) = Some v -> scalar_str v = Some str ->
+                             unreached K (map fst (rs_attrs r)) -> In (K, str) (map kv_of (snd sr))) ps rows.
+Proof. exact read_attribute_is_indexed_l. Qed.
+Print Assumptions read_attribute_is_indexed.
+
+(* Both side conditions are needed: the list attribute a = [y] after the scalar attribute a.0 = x overwrites the index entry while the trace view shows a.0 = x;
+   an attribute called "name" is indexed under the span's name. *)
+Theorem shown_attribute_not_indexed_outside :
+  let inp := svc_req [("service.name", AStr "s")] [("a.0", AStr "x"); ("a", AList [AStr "y"])] in
+  let inp2 := svc_req [("service.name", AStr "s")] [("name", AStr "attr")] in
+  shown_of_req inp "a.0" = [Some (AStr "x")] /\ map (lookup "a.0") (tags_of_req inp) = [Some "y"]
+  /\ has_prefix ("a" ++ ".") "a.0" = true
+  /\ shown_of_req inp2 "name" = [Some (AStr "attr")] /\ map (lookup "name") (tags_of_req inp2) = [Some "GET /x"].
+Proof. exact SpansSvcProofs.shown_attribute_not_indexed_outside. Qed.
+Print Assumptions shown_attribute_not_indexed_outside.
